@@ -48,6 +48,18 @@ fn main() {
     if args[2] == "--worker" {
         // worker subprocesses of checks that isolate cases in processes
         let code = match id {
+            "C01" | "C02" | "C19" => {
+                // E1 worker: the check's own case generator runs again, run_cases() does this shard and exits
+                let tier = if args[3] == "thorough" { Tier::Thorough } else { Tier::Quick };
+                let _ = wirechecks::WORKER.set((args[4].parse().unwrap(), args[5].parse().unwrap()));
+                let ctx = Ctx::new(id, tier);
+                match id {
+                    "C01" => wirechecks::c01(&ctx),
+                    "C02" => wirechecks::c02(&ctx),
+                    _ => wirechecks::c19(&ctx),
+                };
+                2
+            }
             "C05" => c05::worker(&args[3..]),
             "C11" => c11::worker(&args[3..]),
             "C17" => c17::worker(&args[3..]),
